@@ -13,8 +13,8 @@ FUNCTIONS = ["io_drawer.ilog.parse_ilog_data", "PTETable.get_entry/_parse_header
 # later ones that match the raw value), parameters, a %-mismatch, an F-nibble pattern, an escaped quote
 FIX = [
     ("E3087704", "Fan Missing - System Fan 1", "", "fan.cpp", 10),
-    ("E308****", "Generic fan %d fault byte %02X", "3, 4", "fan.cpp", 20),
-    ("E30C77**", "Reported raw fan fault %c", "4", "fan.cpp", 30),
+    ("E30C77**", "Reported raw fan fault %c", "4", "fan.cpp", 20),
+    ("E308****", "Generic fan %d fault byte %02X", "3, 4", "fan.cpp", 30),
     ("E3******", "Any E3 error", "", "fan.cpp", 40),
     ("E2**26**", "Status %02X unit %d", "2, 4", "st.cpp", 45),
     ("F20C****", "F pattern %d %d", "3, 4", "f.cpp", 50),
